@@ -1,0 +1,30 @@
+//go:build verif
+
+package imagehash
+
+import "math"
+
+// VerifPoisonPools fills the pooled pixel buffers with the value whose float64 bits are given.
+func VerifPoisonPools(bits uint64) {
+	v := math.Float64frombits(bits)
+	p64 := pixelsPool64.Get().(*[]float64)
+	for i := range *p64 {
+		(*p64)[i] = v
+	}
+	pixelsPool64.Put(p64)
+	p256 := pixelsPool256.Get().(*[]float64)
+	for i := range *p256 {
+		(*p256)[i] = v
+	}
+	pixelsPool256.Put(p256)
+	q64 := pixelsPool32.Get().(*[]float32)
+	for i := range *q64 {
+		(*q64)[i] = float32(v)
+	}
+	pixelsPool32.Put(q64)
+	q256 := pixelsPool256Alt.Get().(*[]float32)
+	for i := range *q256 {
+		(*q256)[i] = float32(v)
+	}
+	pixelsPool256Alt.Put(q256)
+}
